@@ -539,6 +539,7 @@ pub fn run_random<D: Driver>(opts: &RunOpts) -> Outcome {
         let mut after_terminal = 0;
         ctx.episodes += 1;
         let mut failed = false;
+        let mut tainted = 0u32;
         let mut pi = 0;
         loop {
             if trace.len() >= ep_len || ctx.events >= opts.events {
@@ -573,8 +574,16 @@ pub fn run_random<D: Driver>(opts: &RunOpts) -> Outcome {
             if !ctx.fails.is_empty() {
                 let fs = std::mem::take(&mut ctx.fails);
                 stop = rec.record::<D>(&cfg, k, false, &trace, &fs, true);
-                failed = true;
-                break;
+                let target_hit = fs.iter().any(|f| opts.prop == f.prop || opts.prop == "all");
+                // a failure of another property does not end the history (it would
+                // mask a later failure of the property under check), unless the
+                // state can no longer be trusted to be memory safe
+                let fatal = fs.iter().any(|f| f.pred == "no-panic-on-contract-respecting-history" || (f.pred == "queue-walk-sound" && f.detail.contains("dangling")));
+                tainted += 1;
+                if target_hit || fatal || stop || tainted > 40 {
+                    failed = true;
+                    break;
+                }
             }
             let nfp = d.fp();
             if ctx.states.len() < SET_CAP && ctx.states.insert(nfp) {
@@ -585,7 +594,7 @@ pub fn run_random<D: Driver>(opts: &RunOpts) -> Outcome {
                 ctx.transitions.insert(mix(fp, ev.code()));
             }
         }
-        if failed {
+        if failed || tainted > 0 {
             // the instance may be corrupt: do not run its destructors
             std::mem::forget(d);
             continue;
@@ -796,6 +805,107 @@ pub fn run_bfs<D: Driver>(opts: &RunOpts) -> Outcome {
         bfs_depth: max_depth,
         bfs_configs: n_cfg,
         bfs_exhausted_configs: n_exh,
+    }
+}
+
+/// Exhaustive sweep: every legal event sequence up to `max_depth` (no
+/// de-duplication), with the end-of-history audit at every prefix.
+pub fn run_sweep<D: Driver>(opts: &RunOpts) -> Outcome {
+    let mut ctx = Ctx::new();
+    let mut rec = Recorder {
+        opts,
+        witnesses: vec![],
+        other: BTreeMap::new(),
+        seen_target: HashSet::new(),
+    };
+    let mut cfgs = D::configs(opts.tier);
+    if let Some(f) = &opts.cfg_filter {
+        cfgs.retain(|c| c.contains(f.as_str()));
+    }
+    let mut samples = vec![];
+    let mut n_cfg = 0u64;
+    let mut complete = 0u64;
+    let mut stop = false;
+    for (ci, cfg) in cfgs.iter().enumerate() {
+        if ci % opts.shards != opts.shard || stop {
+            continue;
+        }
+        n_cfg += 1;
+        // iterative DFS over event sequences; every node = one replayed history + audit
+        let mut stack: Vec<Vec<Ev>> = vec![vec![]];
+        let mut truncated = false;
+        let mut en: Vec<Ev> = vec![];
+        while let Some(path) = stack.pop() {
+            if ctx.events >= opts.events {
+                truncated = true;
+                break;
+            }
+            let mut d = D::new(cfg, opts.k, true);
+            let mut bad = false;
+            for (i, e) in path.iter().enumerate() {
+                ctx.cur_fp = d.fp();
+                ctx.cur_ev = *e;
+                ctx.fails.clear();
+                ctx.events += 1;
+                ctx.kind_counts[e.k as usize] += 1;
+                d.step(*e, &mut ctx);
+                if !ctx.fails.is_empty() {
+                    // only the last event of a path is new (prefixes were run before)
+                    let fs = std::mem::take(&mut ctx.fails);
+                    stop = rec.record::<D>(cfg, opts.k, true, &path[..=i], &fs, true);
+                    bad = true;
+                    break;
+                }
+            }
+            if bad {
+                std::mem::forget(d);
+                if stop {
+                    break;
+                }
+                continue;
+            }
+            let fp = d.fp();
+            if ctx.states.len() < SET_CAP {
+                ctx.states.insert(fp);
+            }
+            if path.len() < opts.max_depth {
+                en.clear();
+                d.enabled(&mut en);
+                for e in en.iter().rev() {
+                    let mut p = path.clone();
+                    p.push(*e);
+                    stack.push(p);
+                }
+            } else if samples.len() < 3 {
+                samples.push(trace_to_string::<D>(cfg, &path));
+            }
+            ctx.episodes += 1;
+            ctx.cur_fp = fp;
+            ctx.cur_ev = Ev::new(255, 0, 0);
+            ctx.fails.clear();
+            d.finish(&mut ctx);
+            if !ctx.fails.is_empty() {
+                let fs = std::mem::take(&mut ctx.fails);
+                stop = rec.record::<D>(cfg, opts.k, true, &path, &fs, false);
+                if stop {
+                    break;
+                }
+            }
+        }
+        if !truncated && !stop {
+            complete += 1;
+        }
+    }
+    Outcome {
+        ctx,
+        witnesses: rec.witnesses,
+        other_fails: rec.other,
+        samples,
+        bfs_states: 0,
+        bfs_exhausted: complete == n_cfg && n_cfg > 0,
+        bfs_depth: opts.max_depth as u64,
+        bfs_configs: n_cfg,
+        bfs_exhausted_configs: complete,
     }
 }
 
